@@ -50,6 +50,21 @@ with ThreadPoolExecutor(int(__import__("os").environ.get("KV_JOBS", "14"))) as e
         ok = res.get(own, {}).get('exit') == 1
         bad += not ok
         print(('OK    ' if ok else 'MISSED'), sid, {k: (v['exit'] if isinstance(v, dict) else v) for k, v in res.items()}, flush=True)
+        if UPDATE and not ALL and 'apply' not in res:
+            # own check only: refresh the entries of the own property, keep what earlier full runs recorded about the other checks
+            mp = f'{VERIF}/seeded/{sid}/meta.json'
+            m = json.load(open(mp))
+            cb = dict(m.get('caught_by', {}))
+            cb.pop(own, None)
+            if ok:
+                cb[own] = res[own]['rules']
+            m['caught_by'] = cb
+            ae = [q for q in m.get('analysis_error_in', []) if q != own]
+            if res.get(own, {}).get('exit') == 2:
+                ae.append(own)
+            m['analysis_error_in'] = ae
+            m['caught_by_own_check'] = ok
+            json.dump(m, open(mp, 'w'), indent=1)
         if UPDATE and ALL and 'apply' not in res:
             mp = f'{VERIF}/seeded/{sid}/meta.json'
             m = json.load(open(mp))
